@@ -306,6 +306,9 @@ def harness_text(ctx, name, hname="harness"):
         if kind in ("sret", "this", "ptr", "tag"):
             pointee = ctype[:-1].strip()
             L.append("  %s O%d;" % (pointee, k))
+            if kind != "tag" and getattr(ctx, "aid", None) and ctx.aid in ARCHS:
+                # batch-like objects sit at addresses aligned to the register width (their C++ type's alignment)
+                L.append("  __CPROVER_assume(LL_ADDR(&O%d) %% %d == 0);" % (k, 8 if ctx.aid.startswith("emu") else ARCHS[ctx.aid][1] // 8))
             same = [o for (o, t, kd) in objs.values() if t == pointee and kd in ("ptr", "this")] if kind == "ptr" else []
             ref = "O%d" % k
             if same and kind == "ptr":
